@@ -38,6 +38,7 @@ package interp
 import (
 	"bytes"
 	"fmt"
+	"go/token"
 	"go/types"
 	"io"
 	"strings"
@@ -212,6 +213,9 @@ func equalsV(t types.Type, x, y value) value {
 	case bool, symBool:
 		return mkBool(tCmp("=", boolTerm(x), boolTerm(y)))
 	case float64, symFloat:
+		if v, ok := ratBinop(token.EQL, x, y); ok {
+			return v
+		}
 		return mkBool(&Term{S: "(fp.eq " + fpTerm(x).S + " " + fpTerm(y).S + ")", Sort: SBool})
 	}
 	if isIntValue(x) && isIntValue(y) {
@@ -469,7 +473,7 @@ func writeValue(buf *bytes.Buffer, v value) {
 	case symInt:
 		buf.WriteString("sym:" + v.t.S)
 	case symFloat:
-		buf.WriteString("sym:" + v.t.S)
+		buf.WriteString("sym:" + fpTerm(v).S)
 	case *omap:
 		buf.WriteString("map[")
 		if v != nil {
